@@ -10,17 +10,29 @@ use tokio_modbus::{Request, Response};
 pub fn crc16_modbus(data: &[u8]) -> u16 {
     let mut reg: u16 = 0xFFFF;
     for &byte in data {
-        let b = byte.reverse_bits(); // refin
-        for i in (0..8).rev() {
-            let inbit = (b >> i) & 1;
-            let top = ((reg >> 15) & 1) as u8;
-            reg <<= 1;
-            if top ^ inbit == 1 {
-                reg ^= 0x8005;
-            }
-        }
+        reg = crc_step(reg, byte);
     }
     reg.reverse_bits() // refout
+}
+
+/// feed one byte into the (unreflected) register
+pub fn crc_step(mut reg: u16, byte: u8) -> u16 {
+    let b = byte.reverse_bits(); // refin
+    for i in (0..8).rev() {
+        let inbit = (b >> i) & 1;
+        let top = ((reg >> 15) & 1) as u8;
+        reg <<= 1;
+        if top ^ inbit == 1 {
+            reg ^= 0x8005;
+        }
+    }
+    reg
+}
+
+/// wire bytes (low byte first) of a register state
+pub fn crc_fin(reg: u16) -> [u8; 2] {
+    let c = reg.reverse_bits();
+    [(c & 0xFF) as u8, (c >> 8) as u8]
 }
 
 /// the two CRC bytes in wire order (low byte first)
